@@ -180,7 +180,7 @@ func Ladders(thorough bool, emit func(string)) {
 		emit(fmt.Sprintf("i=0; while i<%d { i=i+1; if i==%d { break } }; i", n+5, n))
 		emit(fmt.Sprintf("func g(){ i=0; while i<%d { i=i+1; if i==%d { return i } }; 0 }; g()", n+5, n))
 		emit(fmt.Sprintf("i=0; while i<%d { i=i+1; if 1 { if 1 { continue } } }; i", n))
-		emit(fmt.Sprintf("i=0; while i<%d { i=i+1; `{% if 1 { continue } %}` }; i", n))
+		emit(fmt.Sprintf("i=0; while i<%d { i=i+1; `{%% if 1 { continue } %%}` }; i", n))
 		emit(fmt.Sprintf("func g(n){ if n <= 0 { return 0 }; g(n-1) }; g(%d)", n))
 		emit(fmt.Sprintf("func g(n){ n <= 0 ? 0 : g(n-1) + 1 }; g(%d)", n*10))
 		emit(rep("x = ", n) + "1")
